@@ -414,6 +414,7 @@ type synthCase struct {
 	Frames    int    `json:"frames"`
 	Mutation  string `json:"mutation"`
 	MutArg    int    `json:"mut_arg"`
+	Sparse    bool   `json:"sparse_grow"` // some commit grew the database without writing every new page
 }
 
 // page1Templates holds, per page size, page 1 of a genuine empty WAL-mode
@@ -512,9 +513,19 @@ func genSynth(r *rand.Rand, no int, tmpls map[int][]byte) (*synthCase, []byte, [
 			}
 			newsize := cur
 			switch x := r.IntN(100); {
-			case x < 30: // grow: every new page is written
+			case x < 30: // grow: every new page is written ...
 				g := 1 + r.IntN(3)
+				// ... except in a "sparse" grow (one in three), where some of the pages
+				// the commit size now covers get no frame in this transaction: their
+				// content is whatever an earlier frame of this WAL (written before a
+				// shrink) or the base file holds. SQLite never writes such a WAL itself
+				// but reads it like any other.
+				sparse := r.IntN(3) == 0
 				for p := cur + 1; p <= cur+g; p++ {
+					if sparse && r.IntN(2) == 0 {
+						sc.Sparse = true
+						continue
+					}
 					pages = append(pages, uint32(p))
 				}
 				r.Shuffle(len(pages), func(i, j int) { pages[i], pages[j] = pages[j], pages[i] })
